@@ -507,39 +507,51 @@ extern int total_queries;
     cif_value_tp *_value = (_val); \
     int _col_ofs = (_ofs); \
     const void *_blob; \
+    int _gvp_result; \
     _value->kind = (cif_kind_tp) sqlite3_column_int(_stmt, _col_ofs); \
     switch (_value->kind) { \
         case CIF_CHAR_KIND: \
             _value->as_char.quoted = (sqlite3_column_int(_stmt, _col_ofs + 1) ? CIF_QUOTED : CIF_NOT_QUOTED); \
-            GET_COLUMN_STRING(_stmt, _col_ofs + 3, _value->as_char.text, HANDLER_LABEL(errlabel)); \
+            GET_COLUMN_STRING(_stmt, _col_ofs + 3, _value->as_char.text, HANDLER_LABEL(gvp)); \
             if (_value->as_char.text != NULL) break; \
-            FAIL(errlabel, CIF_INTERNAL_ERROR); \
+            FAIL(gvp, CIF_INTERNAL_ERROR); \
         case CIF_NUMB_KIND: \
             _value->as_numb.quoted = (sqlite3_column_int(_stmt, _col_ofs + 1) ? CIF_QUOTED : CIF_NOT_QUOTED); \
-            GET_COLUMN_STRING(_stmt, _col_ofs + 3, _value->as_numb.text, HANDLER_LABEL(errlabel)); \
-            GET_COLUMN_BYTESTRING(_stmt, _col_ofs + 4, _value->as_numb.digits, HANDLER_LABEL(errlabel)); \
+            _value->as_numb.text = NULL; \
+            _value->as_numb.digits = NULL; \
+            _value->as_numb.su_digits = NULL; \
+            GET_COLUMN_STRING(_stmt, _col_ofs + 3, _value->as_numb.text, HANDLER_LABEL(gvp_numb)); \
+            GET_COLUMN_BYTESTRING(_stmt, _col_ofs + 4, _value->as_numb.digits, HANDLER_LABEL(gvp_numb)); \
             if ((_value->as_numb.text != NULL) && (*(_value->as_numb.text) != 0) && (_value->as_numb.digits != NULL) \
                     && (*(_value->as_numb.digits) != '\0')) { \
-                GET_COLUMN_BYTESTRING(_stmt, _col_ofs + 5, _value->as_numb.su_digits, HANDLER_LABEL(errlabel)); \
+                GET_COLUMN_BYTESTRING(_stmt, _col_ofs + 5, _value->as_numb.su_digits, HANDLER_LABEL(gvp_numb)); \
                 _value->as_numb.scale = sqlite3_column_int(_stmt, _col_ofs + 6); \
                 _value->as_numb.sign = (*(_value->as_numb.text) == UCHAR_MINUS) ? -1 : 1; \
                 break; \
             } \
-            FAIL(errlabel, CIF_INTERNAL_ERROR); \
+            FAIL(gvp_numb, CIF_INTERNAL_ERROR); \
         case CIF_LIST_KIND: \
         case CIF_TABLE_KIND: \
             _blob = (const void *) sqlite3_column_blob(_stmt, _col_ofs + 2); \
-            if ((_blob != NULL) && (cif_value_deserialize( \
-                    _blob, (size_t) sqlite3_column_bytes(_stmt, _col_ofs + 2), _value) == CIF_OK)) { \
-                break; \
-            } \
-            FAIL(errlabel, CIF_INTERNAL_ERROR); \
+            if (_blob == NULL) FAIL(gvp, CIF_INTERNAL_ERROR); \
+            _gvp_result = cif_value_deserialize(_blob, (size_t) sqlite3_column_bytes(_stmt, _col_ofs + 2), _value); \
+            if (_gvp_result == CIF_OK) break; \
+            FAIL(gvp, ((_gvp_result == CIF_MEMORY_ERROR) ? CIF_MEMORY_ERROR : CIF_INTERNAL_ERROR)); \
         case CIF_UNK_KIND: \
         case CIF_NA_KIND: \
             break; \
         default: \
-            FAIL(errlabel, CIF_INTERNAL_ERROR); \
+            FAIL(gvp, CIF_INTERNAL_ERROR); \
     } \
+    break; \
+    /* on failure the value is left holding no resources, as a valid value of kind CIF_UNK_KIND */ \
+    FAILURE_HANDLER(gvp_numb): \
+    free(_value->as_numb.text); \
+    free(_value->as_numb.digits); \
+    free(_value->as_numb.su_digits); \
+    FAILURE_HANDLER(gvp): \
+    _value->kind = CIF_UNK_KIND; \
+    DEFAULT_FAIL(errlabel); \
 } while (0)
 
 /* The number of _bytes_ in the given null(-character)-terminated Unicode string */
